@@ -19,23 +19,26 @@ type filter.LogNodeFilter(t, node) returns (ok, err)
   ensures @sel ok == FilterSel(self, Inst(t))
 
 func isGoodDate returns (r)
-  props C06 C08
+  props C06 C08 C12
   ensures @begin-inclusive ct ==> r == (Inst(time) >= Inst(compareTime))
   ensures @end-inclusive  !ct ==> r == (Inst(time) <= Inst(compareTime))
 
 // inInterval
 func GetIntervalNodeFilter$1 returns (r)
-  props C06 C08
+  props C06 C08 C12
   ensures @closed-interval r == InIv(fc, Inst(t))
 
-// the filter closure: selects exactly the instants of the closed interval, never fails
+// the filter closure: selects exactly the instants of the closed interval, never fails.
+// It is PURE (type contract): its answer for a day is a function of that day's date alone - it keeps no memory
+// of the days it was asked about before, which is what makes the selected days of a concatenated log the
+// concatenation of the selected days of its parts (C12).
 func GetIntervalNodeFilter$2 returns (ok, err)
-  props C06 C08
+  props C06 C08 C12
   refines filter.LogNodeFilter
   defines @sel forall x int :: {FilterSel(self, x)} FilterSel(self, x) == InIv(captured(inInterval, fc), x)
 
 func GetIntervalNodeFilter returns (f)
-  props C06 C08
+  props C06 C08 C12
   ensures @no-period-no-filter (f == nil) == (fc.BeginningTime == nil && fc.EndTime == nil)
   ensures @selects-interval f != nil ==> fresh(f) && *f != nil && (forall x int :: {FilterSel(*f, x)} FilterSel(*f, x) == InIv(fc, x))
 @*/
